@@ -14,6 +14,7 @@ LEVEL = "fault_enumeration"
 TECHNIQUE = ('deterministic simulation with peer_violation fault enumeration: one catalogued spec violation injected at every applicable (row, term path) of each seeded valid stream via the independent codec; oracle = raise, and yielded items are a prefix of the reference reading')
 LEVEL_NOTE = ('streams sampled by seed, injection positions enumerated per stream and class; mutants the reference decoder still accepts are discarded')
 OPTIMIZED_EVERY = 25      # every 25th run is executed in a child interpreter started with python -O
+PBPY_EVERY = 50           # every 50th run (offset 6) is executed with protobuf's pure-Python backend
 COMPILED_EVERY = 25       # every 25th run (offset 12) is executed in a child that imports a mypyc build of the tree
 RUNS = {"quick": 2500, "thorough": 40000}
 CHUNK = 8
